@@ -421,6 +421,63 @@ fn printer_leg(sub: u64, case: &Case, rng: &mut Rng, acc: &mut Acc) {
             }
         }
     }
+    // one sink object used for two searches in a row (a library caller may do that): the second
+    // search must print what a fresh sink prints
+    {
+        let other: Vec<u8> = {
+            let mut d = b"foo first\nbar\nfoo foo\nx\nfoo\n".to_vec();
+            d.extend_from_slice(&c.data[..c.data.len().min(200)]);
+            if !d.ends_with(b"\n") {
+                d.push(b'\n');
+            }
+            d
+        };
+        for n in [1u64, 2, match_lns.len() as u64 + 1] {
+            // (the JSON sink is left out: it never re-arms its "begin" message and reports running
+            // totals in its "end" message when used again - outside what this property speaks about)
+            for which in ["standard", "summary-count", "summary-count+stats"] {
+                acc.evals += 1;
+                acc.faults.inc("printer-sink-reused-for-a-second-search");
+                macro_rules! twice {
+                    ($mk:expr, $inner:expr) => {{
+                        let fresh = |data: &[u8]| {
+                            let mut p = $mk;
+                            let mut searcher = build_searcher(&c.cfg, &Knobs::default());
+                            let _ = searcher.search_slice(&matcher, data, p.sink(&matcher));
+                            let w: SimWriter = $inner(p);
+                            w.out
+                        };
+                        let mut expect = fresh(&other);
+                        expect.extend_from_slice(&fresh(&c.data));
+                        let mut p = $mk;
+                        {
+                            let mut sink = p.sink(&matcher);
+                            let mut searcher = build_searcher(&c.cfg, &Knobs::default());
+                            let _ = searcher.search_slice(&matcher, &other, &mut sink);
+                            let _ = searcher.search_slice(&matcher, &c.data, &mut sink);
+                        }
+                        let w: SimWriter = $inner(p);
+                        (expect, w.out)
+                    }};
+                }
+                let (expect, got) = match which {
+                    "standard" => twice!(StandardBuilder::new().max_matches(Some(n)).build_no_color(SimWriter::new(None)), |p: grep_printer::Standard<termcolor::NoColor<SimWriter>>| p.into_inner().into_inner()),
+                    "summary-count" => twice!(SummaryBuilder::new().kind(SummaryKind::Count).max_matches(Some(n)).build_no_color(SimWriter::new(None)), |p: grep_printer::Summary<termcolor::NoColor<SimWriter>>| p.into_inner().into_inner()),
+                    "summary-count+stats" => twice!(SummaryBuilder::new().kind(SummaryKind::Count).stats(true).max_matches(Some(n)).build_no_color(SimWriter::new(None)), |p: grep_printer::Summary<termcolor::NoColor<SimWriter>>| p.into_inner().into_inner()),
+                    _ => twice!(JSONBuilder::new().max_matches(Some(n)).build(SimWriter::new(None)), |p: grep_printer::JSON<SimWriter>| p.into_inner()),
+                };
+                let (expect, got) = if which == "json" { (mask_json_times(&expect), mask_json_times(&got)) } else { (expect, got) };
+                if expect != got {
+                    let class = format!("sink-reuse:{which}");
+                    if acc.violations.iter().filter(|v| v.class == class).count() < 10 {
+                        let d = expect.iter().zip(got.iter()).take_while(|(a, b)| a == b).count();
+                        let from = d.saturating_sub(60);
+                        acc.violations.push(mk(&class, format!("max_matches={n}: one {which} sink used for two searches; output differs from that of two fresh sinks at byte {d}: printed ...{:?}, fresh sinks ...{:?}", show(&got[from..got.len().min(d + 120)]), show(&expect[from..expect.len().min(d + 120)])), n, which, &got));
+                    }
+                }
+            }
+        }
+    }
     // failing writer: the search returns the writer's error and the output is a k-byte prefix
     let mut printer = StandardBuilder::new().build_no_color(SimWriter::new(None));
     let mut searcher = build_searcher(&c.cfg, &Knobs::default());
@@ -441,6 +498,23 @@ fn printer_leg(sub: u64, case: &Case, rng: &mut Rng, acc: &mut Acc) {
             }
         }
     }
+}
+
+/// JSON end messages carry statistics (elapsed times, running totals): cut them off.
+fn mask_json_times(b: &[u8]) -> Vec<u8> {
+    let s = String::from_utf8_lossy(b).into_owned();
+    let mut out = String::new();
+    for line in s.lines() {
+        // (the statistics of an end message are running totals of the sink object, by design)
+        if let Some(i) = line.find("\"stats\"") {
+            out.push_str(&line[..i]);
+            out.push_str("<stats masked>");
+        } else {
+            out.push_str(line);
+        }
+        out.push('\n');
+    }
+    out.into_bytes()
 }
 
 /// True if the searcher really uses its multi-line strategy for this case.
